@@ -61,6 +61,14 @@ def templates(maxlen):
                 t = list(rest)
                 t.insert(pos, "X")
                 out.append(tuple(t))
+    # the differentiated array in TWO positions (a rule may exist for one of them only): the remaining slots from a reduced alphabet
+    for n in range(2, min(maxlen, 3) + 1):
+        for p1, p2 in itertools.combinations(range(n), 2):
+            for rest in itertools.product(["C", 1, 2.5], repeat=n - 2):
+                t = list(rest)
+                t.insert(p1, "X")
+                t.insert(p2, "X2")
+                out.append(tuple(t))
     return out
 
 
@@ -103,12 +111,29 @@ def value_of(atom, shape, x, Cv):
     return atom
 
 
+def instantiate(t, xx, Cv):
+    """X2 is a second occurrence of the differentiated array (shifted and scaled so that e.g. clip bounds stay ordered)."""
+    return [xx if a == "X" else ((xx * 0.5 + 2.0) if a == "X2" else (Cv if a == "C" else a)) for a in t]
+
+
 def float_like(r):
     if isinstance(r, (tuple, list)):
         return len(r) > 0 and all(float_like(x) for x in r)
     if isinstance(r, onp.ndarray):
         return r.dtype.kind in "fc" and r.size > 0 and bool(onp.all(onp.isfinite(r)))
     return isinstance(r, (float, complex, onp.floating, onp.complexfloating)) and bool(onp.isfinite(r))
+
+
+def out_positions(of):
+    """Positional slots that are OUTPUT buffers (`out=`): passing an array there is an in-place request, outside the scan."""
+    import inspect
+    if isinstance(of, onp.ufunc):
+        return set(range(of.nin, of.nin + of.nout))
+    try:
+        names = list(inspect.signature(of).parameters)
+        return {i for i, n in enumerate(names) if n == "out"}
+    except (TypeError, ValueError):
+        return set()
 
 
 def scan_item(item, maxlen, seed):
@@ -124,7 +149,8 @@ def scan_item(item, maxlen, seed):
         af, of = getattr(ans, name), getattr(ons, name)
         call_np = lambda args: of(*args)
         call_ag = lambda args: af(*args)
-        tmpls = templates(maxlen)
+        outs = out_positions(of)
+        tmpls = [t for t in templates(maxlen) if not any(isinstance(a, str) and i in outs for i, a in enumerate(t))]
     else:
         call_np = lambda args: _attr_call(args[0], name, args[1:], copy=True)
         call_ag = lambda args: _attr_call(args[0], name, args[1:], copy=False)
@@ -139,7 +165,7 @@ def scan_item(item, maxlen, seed):
             pos = t.index("X")
 
             def f_np(xx):
-                return call_np([xx if a == "X" else value_of(a, shape, None, Cv) for a in t])
+                return call_np(instantiate(t, xx, Cv))
 
             with warnings.catch_warnings():
                 warnings.simplefilter("ignore")
@@ -174,9 +200,9 @@ def scan_item(item, maxlen, seed):
                         J = None
 
                     def f_ag(xx):
-                        return call_ag([xx if a == "X" else value_of(a, shape, None, Cv) for a in t])
+                        return call_ag(instantiate(t, xx, Cv))
 
-                    expr = "%s.%s(%s)" % (nsname, name, ", ".join("X" if a == "X" else ("C" if a == "C" else repr(a)) for a in t)) if kind == "fn" \
+                    expr = "%s.%s(%s)" % (nsname, name, ", ".join({"X": "X", "X2": "(X*0.5+2.0)", "C": "C"}.get(a, repr(a)) if isinstance(a, str) else repr(a) for a in t)) if kind == "fn" \
                         else "X.%s%s" % (name, "" if not callable(getattr(onp.ndarray, name, None)) else "(%s)" % ", ".join("C" if a == "C" else repr(a) for a in t[1:]))
                     for mode in ("rev", "fwd"):
                         try:
@@ -360,6 +386,10 @@ def option_cases():
     add("make_diagonal with unsupported axes", lambda y: np.make_diagonal(y, 0, 0, 1), a3)
     add("make_diagonal with offset", lambda y: np.make_diagonal(y, 1, -1, -2), a3)
     add("atleast_2d with two arguments", lambda y: np.atleast_2d(y, y)[0], a3)
+    add("forward mode w.r.t. two arguments of clip, only one of which has a JVP rule", lambda y: np.clip(a3 * y, -y, y), onp.array(0.8), ("fwd",))
+    add("reverse mode w.r.t. the bounds of clip (no rule)", lambda y: np.clip(a3, -y, y), onp.array(0.8), ("rev",))
+    add("rfft with an odd transform length along axis 0 of a (5, 4) array", lambda y: np.real(np.fft.rfft(y, axis=0)), onp.arange(20.0).reshape(5, 4) ** 0.5, ("rev",))
+    add("rfft with a positional odd n", lambda y: np.real(np.fft.rfft(y, 5)), onp.arange(6.0) ** 0.5, ("rev",))
     add("function without a rule (cbrt)", lambda y: np.cbrt(y), a3)
     add("function without a rule (cumprod)", lambda y: np.cumprod(y), a3)
     add("function without a rule (heaviside)", lambda y: np.interp(y, a3, a3), a3)
